@@ -127,7 +127,7 @@ def gen_fourier(rng, tier):
         nz = rng.randint(2, 4) if threeD else 1
         recon = [nz, rng.randint(2, 6), rng.randint(2, 6)]
         enc = [rng.randint(2, 5) if threeD else 1, rng.choice([recon[1], rng.randint(2, 7)]), rng.choice([recon[2], rng.randint(2, 7)])]
-        kind = rng.choice(['cart', 'cart', 'cart_shuffled', 'cart_under', 'partial', 'noncart', 'dense_cart'])
+        kind = rng.choice(['cart', 'cart_jitter', 'cart_shuffled', 'cart_under', 'partial', 'noncart', 'dense_cart'])
 
         def full(N):
             return [i - N // 2 for i in range(N)]
@@ -147,6 +147,9 @@ def gen_fourier(rng, tier):
                 if kind == 'cart_under' and N > 2:
                     s = sorted(rng.sample(s, rng.randint(2, N)))
                 ks.append(s)
+            if kind == 'cart_jitter':
+                # on the grid only within the grid detection tolerance (1e-3): must be treated as the integer position
+                ks = [[k + rng.choice([-1, 1]) * rng.choice([2.0 ** -12, 2.0 ** -11, 3 * 2.0 ** -12]) if len(s_) > 1 else k for k in s_] for s_ in ks]
             c['kz'], c['ky'], c['kx'] = ks
             if kind == 'dense_cart':
                 pts = [[a, b, d] for a in ks[0] for b in ks[1] for d in ks[2]]
@@ -242,12 +245,13 @@ def _reference(c, o):
             if d in ign:
                 continue
             n, N = recon[ax], enc[ax]
-            phase = phase + k[ax] * (grids[ax] - n // 2) / N
+            kk = k[ax] if d in nuf else round(k[ax])   # an FFT (on-grid) axis samples the integer grid position
+            phase = phase + kk * (grids[ax] - n // 2) / N
             if d not in nuf:
                 # FFT axis: zero padding / cropping window (cropping restricts the sum to the centred window)
                 rp = grids[ax] + (N // 2 - n // 2)
                 mask &= (rp >= 0) & (rp < N)
-                if not (-(N // 2) <= k[ax] < N - N // 2):
+                if not (-(N // 2) <= kk < N - N // 2):
                     mask &= False
         ref[s] = (x * np.exp(-2j * np.pi * phase) * mask).sum()
     return ref
@@ -302,8 +306,8 @@ def coq_fourier(c):
     parts = []
     for ax, key in enumerate(('kz', 'ky', 'kx')):
         ks = c.get(key)
-        if ks is not None and all(float(k).is_integer() for k in ks) and 'points' not in c and 'points2d' not in c:
-            parts.append(f'fourier_table {zlit(c["recon"][ax])} {zlit(c["enc"][ax])} {zlist([int(k) for k in ks])}')
+        if ks is not None and all(abs(k - round(k)) <= 1e-3 for k in ks) and 'points' not in c and 'points2d' not in c:
+            parts.append(f'fourier_table {zlit(c["recon"][ax])} {zlit(c["enc"][ax])} {zlist([int(round(k)) for k in ks])}')
         else:
             parts.append('(nil : list (list (option Z)))')
     return '[' + '; '.join(parts) + ']'
